@@ -189,6 +189,7 @@ type ChildReq struct {
 	Flags   []bool    `json:"flags,omitempty"`    // state of the shared default-rule flags before the call
 	PrePack string    `json:"pre_pack,omitempty"` // pack this directory first with the same Packer value
 	Reuse   bool      `json:"reuse,omitempty"`    // unpack: the Packer value has already unpacked another slug elsewhere
+	WarmDir string    `json:"warm_dir,omitempty"` // ... into this directory (outside the arena; created and removed by the child)
 	Build   *BuildReq `json:"build,omitempty"`    // op "build": run the bundle builder (stream prepare)
 }
 
